@@ -5,6 +5,8 @@ verdicts; adding a null-valued constraint changes no other verdict.
 """
 
 import copy
+import os
+import json
 import math
 import re
 
@@ -336,6 +338,27 @@ def run(case, ctx):
                     'constraints object: ' + vo.detail())
     else:
         check_result(out, vo, exp_o, other, tag=':second-call-same-dict')
+    # a history through a file: another constraint set of the same size is
+    # written to one path and used, the file is rewritten in place with this
+    # set, and the path is used again (what was read before must not stick)
+    if len(json.dumps(case['constraints'], sort_keys=True)) % 3 == 0:
+        out.label('history:constraints-file-rewritten-in-place')
+        shared = os.path.join(ctx.scratch, 'shared.tdda')
+        text = json.dumps(case['constraints'], ensure_ascii=False)
+        size = len(text.encode('utf-8'))
+        decoy = '{"fields": {}}'
+        decoy += ' ' * max(0, size - len(decoy))
+        with open(shared, 'w', encoding='utf-8') as f:
+            f.write(decoy)
+        quiet(verify_df, df.copy(), shared, **kw)
+        with open(shared, 'w', encoding='utf-8') as f:
+            f.write(text)
+        ok, vp = quiet(verify_df, df.copy(), shared, **kw)
+        if not ok:
+            out.violate('never-raises', vp.bucket(), 'constraints given as '
+                        'a path: ' + vp.detail())
+        else:
+            check_result(out, vp, exp, case, tag=':path-after-rewrite')
     # metamorphic: add one null-valued constraint of a kind not yet present
     for f in exp:
         if f not in cols:
